@@ -2,6 +2,7 @@ import MosnVerif.Lemmas.Flow
 import MosnVerif.Lemmas.HpackInt
 import MosnVerif.Lemmas.H2Frame
 import MosnVerif.Lemmas.HpackTable
+import MosnVerif.Lemmas.HpackWire
 /-!
 # C18 — HTTP/2 wire compatibility and flow control (property theorems only)
 
@@ -174,7 +175,7 @@ end hpack
 
 /-! ## HPACK dynamic table: encoder and decoder stay synchronised -/
 section table
-open MosnVerif.Model.HpackTable MosnVerif.Lemmas.HpackTable
+open MosnVerif.Model.HpackTable MosnVerif.Lemmas.HpackTable MosnVerif.Model.HpackInt
 
 /-- **table_sync (one field)**: with equal dynamic tables and no size update pending, `WriteField` emits exactly one
 representation; the decoder turns it back into the same field (name, value, sensitivity) and both sides end with
@@ -203,6 +204,34 @@ theorem table_sync_block (e : Enc) (d : Dec) (fs : List Field) (h : Rel e d) (hn
       d'.tab.size ≤ d'.tab.maxSize := by
   obtain ⟨d', ha, hrel, heq⟩ := block_sync e d fs h
   exact ⟨d', ha, (heq hne).1, hrel.led⟩
+
+/-- **rep_roundtrip**: the bytes of an indexed field, of a table size update and of every literal representation
+(all three kinds, indexed or new name) whose strings are written without Huffman coding are parsed back to the same
+representation with the following bytes untouched — so on such header lists `table_sync` holds of the BYTES.
+(Huffman-coded strings: the round trip of the tree-walking decoder is established by the correspondence run only;
+what is proved of the table is `huffman_prefix_free` / `huffman_complete` below.) -/
+theorem rep_roundtrip_indexed (i : Nat) (rest : Bytes) (hi : i < 2 ^ 63) :
+    parseOne 0 (serialize (.indexed i) ++ rest) = .ok (.indexed i, rest) :=
+  MosnVerif.Lemmas.HpackWire.parse_indexed i rest hi
+
+theorem rep_roundtrip_size_update (v : Nat) (rest : Bytes) (hv : v < 2 ^ 63) :
+    parseOne 0 (serialize (.sizeUpdate v) ++ rest) = .ok (.sizeUpdate v, rest) :=
+  MosnVerif.Lemmas.HpackWire.parse_sizeUpdate v rest hv
+
+theorem rep_roundtrip_literal (k : LitKind) (idx : Nat) (name value rest : Bytes) (hi : idx < 2 ^ 63)
+    (hname : if idx = 0 then MosnVerif.Lemmas.HpackWire.NoHuff name else name = [])
+    (hv : MosnVerif.Lemmas.HpackWire.NoHuff value) :
+    parseOne 0 (serialize (.literal k idx name value) ++ rest) = .ok (.literal k idx name value, rest) := by
+  by_cases h0 : idx = 0
+  · subst h0
+    simp only [if_true] at hname
+    exact MosnVerif.Lemmas.HpackWire.parse_literal_new_name k name value rest hname hv
+  · simp only [h0, if_false] at hname
+    subst hname
+    exact MosnVerif.Lemmas.HpackWire.parse_literal_indexed_name k idx value rest (by omega) hi hv
+
+example : MosnVerif.Lemmas.HpackWire.NoHuff [0xff, 0xfe, 0x00] := by
+  constructor <;> decide
 
 -- non-vacuity: repeated and sensitive fields, an entry evicted by a shrink, two size updates opening a block
 def demoOps : List Op :=
